@@ -1,0 +1,7 @@
+//go:build !verif
+
+package validate
+
+// verifRedeemed is the redeem notification used by the external verification
+// harness (build tag "verif"). Without the tag it is a no-op.
+func verifRedeemed(string, any) bool { return false }
